@@ -1,7 +1,6 @@
 (* Proofs/C14Proofs.v — the transcription of activity() (Model/Act.v) against the chain solutions
    (Spec/Activation.v). *)
 From Coq Require Import Reals ZArith QArith Qreals Qabs String List Bool Lra Lia.
-From Interval Require Import Tactic.
 From Coquelicot Require Import Coquelicot.
 From PT Require Import Str Dec Py IExpr ActEval ActEvalSound Act Activation.
 Import ListNotations.
@@ -9,7 +8,13 @@ Open Scope R_scope.
 
 (* ------------------------------------------------------------------ ln 2 *)
 Lemma ln2_bounds : Q2R ln2_lo < ln 2 < Q2R ln2_hi.
-Proof. unfold ln2_lo, ln2_hi, Q2R; simpl. split; interval with (i_prec 80). Qed.
+Proof.
+  pose proof (sign_of_sound (ESub (EVar 0) (ECst ln2_lo))) as H1.
+  pose proof (sign_of_sound (ESub (ECst ln2_hi) (EVar 0))) as H2.
+  assert (E1 : sign_of (ESub (EVar 0) (ECst ln2_lo)) = SPos) by (vm_compute; reflexivity).
+  assert (E2 : sign_of (ESub (ECst ln2_hi) (EVar 0)) = SPos) by (vm_compute; reflexivity).
+  rewrite E1 in H1. rewrite E2 in H2. unfold sgn_means in *. cbn [evalR] in *. unfold ln2_env_R in *. lra.
+Qed.
 
 Lemma ln2_pos : 0 < ln 2.
 Proof. rewrite <- ln_1. apply ln_increasing; lra. Qed.
@@ -291,12 +296,8 @@ Proof.
   | context [if ?b then _ else _] => destruct b eqn:?
   | context [match lin_ln2_neg ?a ?b with _ => _ end] => destruct (lin_ln2_neg a b) as [[|]|] eqn:?
   end; try discriminate H); injection H as <-; (split; [reflexivity|]).
-  all: repeat match goal with Hb : (_ =? _)%string = true |- _ => rewrite Hb; clear Hb end.
   all: try (left; apply Z.eqb_eq; assumption).
-  all: try (right; left; assumption).
-  all: try (right; right; left; split; [reflexivity || (rewrite orb_true_r; reflexivity)|assumption]).
-  all: try (right; right; right; split; [reflexivity|assumption]).
-  all: idtac "LEFT". Show.
+  all: repeat match goal with Hb : _ = true |- _ => rewrite Hb; clear Hb end; simpl; tauto.
 Qed.
 
 Theorem model_refines_spec_repaired : forall cfg r amass mass env t br a m lam spec, cfg_small cfg = false ->
